@@ -33,7 +33,7 @@ def bars(grid, paths, spread):
 def full_model(name, contracts, space, grid, events, targets, lats=(0,), delays=(0,), fees="free", rate=F(0), markup=F(0),
                deposit=F(1000), thr=F(0), maxsteps=3, ruin="done", chain=(), chain_ltd=(), chain_exp=(), yearlen=0,
                base=(2019, 3, 4), invariants=(), properties=(), reset_anywhere=False, clockscope="restored_on_entry",
-               extends="EnvFull", extra_plain=None, chain_offset=0, fractional=True, rate_path=()):
+               extends="EnvFull", extra_plain=None, chain_offset=0, fractional=True, rate_path=(), measure="weight"):
     cs = {c: CONTRACTS[c] for c in contracts}
     fixed, prop = FEES[fees]
     defs = {
@@ -47,7 +47,7 @@ def full_model(name, contracts, space, grid, events, targets, lats=(0,), delays=
         "ChainSeq": list(chain), "ChainLtd": list(chain_ltd), "ChainExp": list(chain_exp), "Thr": thr,
     }
     plain = {"RefRule": "carry", "SpotMult": "applied", "SubLot": "skip", "YearLen": yearlen, "MaxSteps": maxsteps,
-             "RuinStep": ruin, "ResetAnywhere": reset_anywhere, "ClockScope": clockscope, "ChainOffset": chain_offset, "Fractional": bool(fractional)}
+             "RuinStep": ruin, "ResetAnywhere": reset_anywhere, "ClockScope": clockscope, "ChainOffset": chain_offset, "Fractional": bool(fractional), "Measure": measure}
     plain.update(extra_plain or {})
     return {
         "name": name,
@@ -56,7 +56,7 @@ def full_model(name, contracts, space, grid, events, targets, lats=(0,), delays=
         "ctx": {"model": {"contracts": cs, "space": list(space), "chain": list(chain), "fixed": fixed, "prop": prop,
                           "deposit": deposit, "rate": rate, "markup": markup, "thr": thr, "base": list(base),
                           "chain_offset": chain_offset, "fractional": bool(fractional),
-                          "rate_path": [tuple(x) for x in rate_path], "yearlen": yearlen},
+                          "rate_path": [tuple(x) for x in rate_path], "yearlen": yearlen, "measure": measure},
                 "maxsteps": maxsteps, "name": name},
         "invariants": list(invariants), "properties": list(properties),
     }
@@ -204,6 +204,18 @@ def c09_models(tier, ruin="done"):
     for nm, sp in (("crash-two-margined", ["F4", "G1"]), ("crash-two-margined-rev", ["G1", "F4"])):
         ms.append(full_model(nm, ["F4", "G1"], sp, grid, ev_h, tg2, lats=(0,), delays=(0,), maxsteps=3, ruin=ruin,
                              invariants=C09_INV, properties=C09_PROPS))
+    # actions in numbers of contracts (a space declared with as_weights=False): 3 lots bought on margin at 64, the price
+    # falls to 16 and NLV to -16; a decision to sell arrives: nothing executes, the episode ends
+    ev_l = bars(grid, {"S1": [64, 64, 16, 64, 64], "F4": [12, 12, 12, 12, 12]}, 0)
+    ms.append(full_model("crash-lots", ["S1", "F4"], ["S1", "F4"], grid, ev_l, [{"S1": F(3)}, {"S1": F(1)}, {}], lats=(0,),
+                         delays=(0,), deposit=F(128), maxsteps=4, ruin=ruin, measure="lots", invariants=C09_INV,
+                         properties=C09_PROPS))
+    # the same in the latency window: the crash is applied just before the decision, which therefore arrives insolvent
+    ev_m = bars(grid, {"S1": [64, 64, 64, 64, 64], "F4": [12, 12, 12, 12, 12]}, 0) + \
+        [Rec(t=grid[1] + L, kind="q", c="S1", bid=16, ask=16), Rec(t=grid[2] + L, kind="q", c="S1", bid=64, ask=64)]
+    ms.append(full_model("crash-latent-lots", ["S1", "F4"], ["S1", "F4"], grid, ev_m, [{"S1": F(3)}, {"S1": F(1)}, {}], lats=(L,),
+                         delays=(0,), deposit=F(128), maxsteps=4, ruin=ruin, measure="lots", invariants=C09_INV,
+                         properties=C09_PROPS))
     if tier != "quick":
         ev_d = bars(grid, {"S1": [12, 12, 12, 12, 12], "F4": [12, 12, 8, 12, 12]}, {"S1": 0, "F4": 4})
         ms.append(full_model("crash-fees", ["S1", "F4"], ["S1", "F4"], grid, ev_d, tg, lats=(0, L), delays=(0, 1), fees="dy",
